@@ -186,6 +186,49 @@ class Gen9(progen.Gen):
         self.calls.setdefault(fn.name, set()).add(h[0])
         return super().call_text(fn, h, d)
 
+    def expr_L_lb(self, fn, d):
+        ch = self.ch
+        hs = self._callable(fn, 'L')
+        if hs and self.p.comprehension and ch.bool(0.55):
+            h = ch.choice(hs)
+            ls = self.vars_of(fn, 'L')
+            if not ls or ch.bool(0.25):
+                return self.call_text(fn, h, max(d, 1)), 0
+            # `[... for v in L for w in h(..v..)]`: the later iterable is evaluated once per element of the earlier
+            # generator, with its target bound; the target is often a name the caller also uses
+            l = ch.choice(ls)
+            rv = [x for x in self.vars_of(fn, 'R') if x not in fn.protected]
+            v = ch.choice(rv) if (rv and ch.bool(0.65)) else fn.fresh('e')
+            w = fn.fresh('e')
+            had = v in fn.env
+            fn.env[v] = 'R'
+            args = []
+            used_v = False
+            for pn, pt in h[1]:
+                if pt == 'L':
+                    cands = [x for x in ls if fn.len_lb.get(x, 0) >= h[5].get(pn, 0)]
+                    if cands:
+                        args.append(ch.choice(cands))
+                    else:
+                        args.append('[' + ', '.join([v] * max(h[5].get(pn, 0), 1)) + ']')
+                        used_v = True
+                elif not used_v:
+                    args.append(v)
+                    used_v = True
+                else:
+                    args.append(self.expr_R(fn, 0))
+            self.calls.setdefault(fn.name, set()).add(h[0])
+            fn.env[w] = 'R'
+            body = ch.choice([f'({w} + {v})', f'({w} * {v})', w, self.expr_R(fn, 1)])
+            del fn.env[w]
+            if not had:
+                del fn.env[v]
+            self.features.update({'helper-call', 'comprehension', 'call-in-later-comprehension-generator'})
+            if h[4]:
+                self.features.add('helper-mutates-list')
+            return f'[{body} for {v} in {l} for {w} in {h[0]}({", ".join(args)})]', 0
+        return super().expr_L_lb(fn, d)
+
     def expr_B(self, fn, d):
         ch = self.ch
         if ch.bool(0.06):
@@ -349,6 +392,14 @@ class Gen9(progen.Gen):
                 if nm in fn.env:
                     return False
                 return self._with_block(fn, ind, depth, out, in_loop, in_with, text, 'with-as-ctx-name', as_name=nm, safe=safe)
+        if ch.bool(0.10 if self.lift_bias else 0.04):
+            # a plain local named like a temporary a transform would invent (`ctx`, `ctx1`... for lift_context, `t` for inline)
+            nm = ch.choice(['ctx', 'ctx', 'ctx1', 'ctx2', 'ctx3', 'ctx4', 'ctx5', 'ctx6', 't'])
+            if fn.env.get(nm, 'R') == 'R' and nm not in fn.protected and nm not in fn.ctxvars:
+                out.append(f'{ind}{nm} = {self.expr_R(fn, 2)}')
+                fn.env[nm] = 'R'
+                self.features.add('local-named-like-transform-temporary')
+                return False
         if depth > 0 and fn.safe and ch.bool(0.05):
             hs = self._callable(fn)
             if hs and self.p.while_loops:
@@ -450,7 +501,7 @@ class Gen9(progen.Gen):
         if is_main:
             fn.ret_type = 'R' if ch.bool(0.7) else ch.choice(['L', 'B', 'T', 'R'])
         else:
-            fn.ret_type = 'R' if ch.bool(0.85) else 'B'
+            fn.ret_type = ch.weighted([(15, 'R'), (2, 'B'), (5 if p.lists and p.comprehension else 0, 'L')])
         if not p.lists and fn.ret_type == 'L':
             fn.ret_type = 'R'
         if not p.tuples and fn.ret_type == 'T':
@@ -489,6 +540,23 @@ class Gen9(progen.Gen):
             self.features.add('main-with-own-ctx' if is_main else 'helper-declares-ctx')
         return (name, params, fn.ret_type, own_ctx is not None, mutates, minlen)
 
+    def make_factory_helpers(self):
+        """Closures made by a Python factory: FPy functions that capture the SAME name `k` with DIFFERENT values."""
+        ch = self.ch
+        for j in range(ch.int(1, 2)):
+            own = ch.choice(['', '', '(ctx=fp.MPFloatContext(4, fp.RM.RTZ))', '(ctx=fp.FP32)'])
+            body = ch.choice(['        return x * k + k', '        t = x / k\n        return t + k', '        k1 = x - k\n        return k1 * k',
+                              '        with fp.MPFloatContext(3, fp.RM.RNE):\n            t = x * k\n        return t / 3'])
+            self.lines += [f'def make_f{j}(k):', f'    @fp.fpy{own}', '    def fh(x):'] + body.split('\n') + ['    return fh', '']
+            vals = ['2', '3.5', '0.1', '-1', '7', '0.3']
+            a = ch.choice(vals)
+            b = ch.choice([x for x in vals if x != a])
+            for nm, val in ((f'fa{j}', a), (f'fb{j}', b)):
+                self.lines.append(f'{nm} = make_f{j}({val})')
+                self.helpers.append((nm, [('x', 'R')], 'R', bool(own), False, {}))
+            self.lines.append('')
+        self.features.add('closures-capture-same-name')
+
     def program9(self, n_helpers=(1, 3)):
         self.make_globals()
         if any(g[1] == 'frac' for g in self.gl):
@@ -497,6 +565,8 @@ class Gen9(progen.Gen):
             self.lines.append(f'{name} = {text}')
         if self.gl:
             self.lines.append('')
+        if n_helpers[1] > 0 and self.ch.bool(0.3):
+            self.make_factory_helpers()
         nh = self.ch.int(*n_helpers)
         if nh and self.ch.bool(0.35):
             # counter-safe contexts only: `main` may run `while` loops under it
@@ -638,7 +708,7 @@ def site_info(func):
                 except Exception:
                     same_ctx = False
                 infos[id(e)] = {
-                    'args_write': args_write, 'same_ctx_as_caller': bool(same_ctx),
+                    'fn': e.fn, 'args_write': args_write, 'same_ctx_as_caller': bool(same_ctx),
                     'callee': e.fn.name, 'with': st['with'], 'loop': st['loop'] > 0, 'comp': st['comp'] > 0,
                     'cond_eval': st['cond_eval'] > 0, 'while_cond': st['while_cond'] > 0, 'if_cond': st['if_cond'] > 0,
                     'ctx_expr': st['ctx_expr'] > 0,
